@@ -34,7 +34,7 @@ def gen(W):
     sc["fault"] = None
     if W.chance(0.3):
         sc["fault"] = {"cid": W.draw(len(sc["conns"])), "send": W.draw(12),
-                       "errno": W.choice(["ETIMEDOUT", "EHOSTUNREACH", "RST", "EINVAL"])}
+                       "errno": W.choice(["ETIMEDOUT", "EHOSTUNREACH", "RST", "EINVAL", "RECV_EAGAIN"])}
     return sc
 
 
@@ -74,10 +74,14 @@ def run_one(tapes, tier, scenario=None):
     fault = sc.get("fault")
     if fault:
         import errno as _errno
-        code = -1 if fault["errno"] == "RST" else getattr(_errno, fault["errno"])
-        # persistent failure: every send from the n-th on fails
-        for i in range(fault["send"], fault["send"] + 400):
-            sim.add_fault(fault["cid"], "send", i, code)
+        if fault["errno"] == "RECV_EAGAIN":
+            # spurious readiness: one recv raises EAGAIN although the poller reported the socket readable
+            sim.add_fault(fault["cid"], "recv", fault["send"] % 4, _errno.EAGAIN)
+        else:
+            code = -1 if fault["errno"] == "RST" else getattr(_errno, fault["errno"])
+            # persistent failure: every send from the n-th on fails
+            for i in range(fault["send"], fault["send"] + 400):
+                sim.add_fault(fault["cid"], "send", i, code)
     sim.run()
 
     feat = "+expect" if any(e["expect"] for exp in ctx.expected.values() for e in exp) else ""
